@@ -22,7 +22,12 @@ import (
 	"verif/harness"
 )
 
-const verifDir = "/verif"
+var verifDir = func() string {
+	if d := os.Getenv("VERIF_DIR"); d != "" {
+		return d
+	}
+	return "/verif"
+}()
 
 func env() []string {
 	e := os.Environ()
